@@ -28,6 +28,7 @@ ALLDS = ('%{cgroup:name=systemd}%{cwd}%{datetime}%{domain}%{egid}%{egroup}%{env_
 # every data source and every filter on the path (races in rarely used sources); the extra sources sit in a 2nd record field group that the oracle ignores
 CFG_ALLDS = '[snoopy]\nmessage_format = ' + FMT + '|' + ALLDS.replace('|', '') + '\nfilter_chain = exclude_spawns_of:zz;exclude_uid:5;only_root;only_tty;only_uid:0;noop\noutput = file:@W@/log\n'
 CFG_STDOUT = '[snoopy]\nmessage_format = ' + FMT + '\nfilter_chain = only_uid:0;noop\noutput = stdout\n'
+CFG_SOCKABSENT = '[snoopy]\nmessage_format = ' + FMT + '\nfilter_chain = only_uid:0;noop\noutput = socket:@W@/nosock\n'
 CFG_DROP = '[snoopy]\nmessage_format = ' + FMT + '\nfilter_chain = only_uid:0;only_root;exclude_uid:0;noop\noutput = file:@W@/log\n'
 
 
@@ -61,6 +62,8 @@ def judge(x, n, k, drop):
         bad.append('mutex_left_locked')
     if r['rec_calls'] != [k] * n or r['lone_rec_calls'] != 1 or r['bad_ret']:
         bad.append('exec_passthrough')
+    if r.get('bad_closes', 0):
+        bad.append('library_closed_a_descriptor_that_was_not_open(double_close)')
     if r.get('inheritable_at_exec', 0):
         # at the moment of one thread's real exec a descriptor the library opened in ANOTHER thread is open without close-on-exec:
         # the new program would inherit it - the call does not behave as it would alone
@@ -181,6 +184,8 @@ def run(ck):
         ('io-asan-2x1', vio, 'asan', False, CFG_LOG, 2, 1, 2, False),
         ('io-hashed-asan-2x1', vio, 'asan', False, CFG_LOG, 2, 1, 'hashed', False),
         ('io-stdout-asan-2x1', vio, 'asan', False, CFG_STDOUT, 2, 1, 2, False),
+        # socket output whose connect() fails (error path closes the descriptor): descriptor numbers are reused across threads
+        ('io-sockabsent-asan-2x1', vio, 'asan', False, CFG_SOCKABSENT, 2, 1, 2, True),
         ('fn-asan-2x1', vf, 'asan', True, CFG_LOG, 2, 1, 1, False),
         ('fn-asan-drop-2x1', vf, 'asan', True, CFG_DROP, 2, 1, 1, True),
     ]
